@@ -216,6 +216,20 @@ def _corpus():
                 self.sync += self.st.eq(self.st + 1)
         d = T(); return d, set(d.ports) | {d.o, d.s0.input, d.s1.input, d.s0.o, d.s1.o, d.w, d.l, d.e}
     out.append(("keywords-and-equal-names-via-user-names(signals,memories,instances)", kwnames))
+    def attrs():
+        """declarations carrying several translated and platform attributes, converted with a platform-style attr_translate table (the Xilinx one:
+        two generic attributes map to the same vendor attribute): the `(* ... *)` lists must come out in one order in every run"""
+        class T(Module):
+            def __init__(self):
+                self.i = Signal(4); self.o = Signal(4)
+                r0 = Signal(4, name="ff0"); r1 = Signal(4, name="ff1"); w = Signal(4, name="w")
+                r0.attr |= {"mr_ff", "async_reg", "no_retiming", "keep"}; r1.attr |= {"async_reg", "no_retiming", "mr_ff", ("ram_style", "distributed"), ("max_fanout", "8")}
+                w.attr |= {"keep", "no_shreg_extract", ("mark_debug", "true")}
+                self.sync += [r0.eq(self.i), r1.eq(r0)]; self.comb += [w.eq(r1 ^ r0), self.o.eq(w)]
+                self._c02_attr_translate = {"keep": ("dont_touch", "true"), "no_retiming": ("dont_touch", "true"), "async_reg": ("async_reg", "true"), "mr_ff": ("mr_ff", "true"),
+                                            "ars_ff1": ("ars_ff1", "true"), "ars_ff2": ("ars_ff2", "true"), "no_shreg_extract": None}
+        d = T(); return d, {d.i, d.o}
+    out.append(("several-attributes-with-a-platform-attr_translate", attrs))
     return out
 
 def _convert_twice(d, ios, name):
@@ -240,7 +254,8 @@ def _convert(d, ios, name):
         try: f.clock_domains[cdn]
         except KeyError:
             cd = ClockDomain(cdn); f.clock_domains.append(cd); ios |= {cd.clk, cd.rst}
-    return convert(f, ios=ios, name=name)
+    at = getattr(d, "_c02_attr_translate", None)
+    return convert(f, ios=ios, name=name, attr_translate=at) if at is not None else convert(f, ios=ios, name=name)
 
 DECL = re.compile(r"^\s*(?:input|output|inout)?\s*(?:wire|reg)\s*(?:signed\s*)?(?:\[[^\]]*\]\s*)?([A-Za-z_][A-Za-z0-9_$]*)\s*(?:\[[^\]]*\]\s*)?(?:=|;|,|$)", re.M)
 def _decls(text):
